@@ -117,7 +117,7 @@ def run_conn(ctx, props):
         if "C13" in props or "C10" in props:
             try:
                 sframes = parse_frames(bytes(c["reply_single"]))
-                if endc == 1 and len(sframes) != len(rframes):
+                if c.get("rst_possible") and endc != 0 and len(sframes) != len(rframes):
                     # the server closed on a protocol error with client bytes unread: TCP answers RST and replies the
                     # client had not read yet may be discarded by its kernel; only the common prefix is comparable
                     k = min(len(sframes), len(rframes))
@@ -129,12 +129,12 @@ def run_conn(ctx, props):
             except ValueError:
                 same = False
             if not same:
-                ctx.violations.append({"what": "C13: a command stream is answered differently when cut into packets (chunk sizes below) than when sent in a single write (%d reply frames when chunked)" % len(rframes),
+                ctx.violations.append({"what": "%s: a command stream is answered differently when cut into packets (chunk sizes below) than when sent in a single write (%d reply frames when chunked; one reply per command, in order, whatever the splitting)" % (ctx.pid, len(rframes)),
                                        "input": inp, "reply_chunked": list(real[:200]), "reply_single_write": c["reply_single"][:200]})
                 continue
         mframes = parse_frames(exp_bytes)
         stats["commands_replied"] += len(rframes)
-        if endc == 1 and len(rframes) < len(mframes):
+        if c.get("rst_possible") and endc != 0 and len(rframes) < len(mframes):
             # same RST truncation: the real stream may stop early, never run long or differ
             stats["rst_truncated"] = stats.get("rst_truncated", 0) + 1
             mframes = mframes[:len(rframes)]
